@@ -19,24 +19,29 @@ RULE = ("energies 10^U(3,12) GeV x (EM only / hadronic only / mixed fractions) x
         "depths U(-2800,-5) m (index from AntarcticIce) x grids (odd and even N, dt in 0.05..2 ns incl. non-round, "
         "offsets 0 / -37 ns / 1 us / random) x shower times t0 = times[0]+(k+frac)dt with frac in [0.1,0.9] (for ARZ "
         "also the fractional part of the sub-sample index kept in [0.1,0.9]), k inside, before and far outside the "
-        "window; a case is non-trivial when the energy is non-zero and the pulse is not cut to all-zero; distinct = "
+        "window; plus, for the search, ARZ pulses 5e-4..0.13 rad off the cone compared with an independent quadrature "
+        "of the convolution integral; a case is non-trivial when the energy is non-zero and the pulse is not cut to all-zero; distinct = "
         "distinct (model, parameters, grid) tuples")
 LEVEL_TEXT = ("theorems C07_* proved over R for the model text (1/R exactly, evenness in the angle, joint shift, "
-              "whole-sample moves, zero energy, non-vanishing denominators, cone factors maximal at theta_c and "
-              "strictly monotone, linearity in E on the cone); the same text run on Float agrees with the three "
+              "whole-sample moves (ARZ up to the signal class, sum over showers), zero energy, non-vanishing "
+              "denominators, cone factors maximal at theta_c and strictly monotone, linearity in E on the cone - for "
+              "ARZ for every shower mixture); the same text run on Float agrees with the three "
               "pyrex classes on every sampled input (1e-9 of the peak) and, for ARZ, the index bookkeeping and the "
               "shift/pad/crop/decimate/diff stage agree on the implementation's own profile/RAC arrays and on "
               "arbitrary (random) profile and potential functions")
 LEVEL_NOTE = ("floating-point rounding is not modelled (tolerance run, fractional parts kept away from floor/int "
               "boundaries); numpy fft/ifft/irfft/convolve/trapz are modelled by their mathematical definition. "
-              "_partial theorems: C07_whole_sample_move_arz_partial_{oncone,rac,trunc,place,offcone} (the on-cone "
-              "branch is proved exactly for a uniform grid; off the cone: RAC sampling times invariant (_rac), int() "
-              "follows the shift while (t_start+10ns)/(dt/dt_divider) does not cross zero (_trunc), the four-way "
-              "shift/pad/crop (C07_arz_placement, proved in full) moves with n_shift (_place), and through "
-              "decimation, scaling and diff the output moves by m samples when n_shift decreases by m*dt_divider "
-              "with the same sampled Q and RAC (_offcone); missing: the unfolding of arzIdx that shows "
-              "shower_signal(t0+m*dt) reaches exactly that state, and the case where the int() argument crosses "
-              "zero, in which one more / one fewer +-10 ns tail sample of RAC is kept); C07_arz_cone_partial (only the time-compression factor (1-n cos theta)/c is "
+              "_partial theorems: C07_whole_sample_move_arz_partial (signal class, sum over both showers) and "
+              "C07_whole_sample_move_arz_shower_partial (one shower, arbitrary profile/potential) prove new[i] = old[i-m] "
+              "for every m <= i < N under ArzShowerMoves: zero energy, or on the cone with a uniform grid, or off the "
+              "cone with dt != 0, z_to_t != 0, neither shower time skipped, n_RAC >= 1 and the argument of n_shift = "
+              "int((t_start+10ns)/(dt/dt_divider)) not crossing zero under the move; what keeps them _partial is only "
+              "that zero crossing, where int() keeps one more / one fewer +-10 ns tail sample of RAC (difference <= "
+              "4e-5 of the potential's peak, no exact equality). The correspondence run evaluates ArzMoveHyp on the "
+              "Float twin (counter arz_move_hyp_holds) and checks the index conclusion there. The ingredient "
+              "theorems C07_whole_sample_move_arz_partial_{oncone,rac,trunc,place,offcone} and C07_arz_placement (the "
+              "four-way shift/pad/crop is one index formula, full strength) are kept; "
+              "C07_arz_cone_partial (only the time-compression factor (1-n cos theta)/c is "
               "shown to vanish at theta_c and to grow strictly with the angular distance on either side, not the "
               "sampled amplitude, which on coarse grids is not ordered: K13); C07_cone_factor_max_mono is about the "
               "ZHS Gaussian and the AVZ width factor at every frequency (C07_zhs_amplitude_max_on_cone lifts it to the "
@@ -50,7 +55,13 @@ LEVEL_NOTE = ("floating-point rounding is not modelled (tolerance run, fractiona
               "C07_avz_odd_last_sample_extrapolated proves what it is). ARZ energies at or below the critical "
               "energy give zeros; n_Q = 0 is outside the model's claims. Constants are extracted: a changed literal "
               "regenerates the twin and re-checks the theorems (a benign change of an amplitude constant is, "
-              "correctly, not a violation); a changed code shape fails the extractor closed")
+              "correctly, not a violation); a changed code shape fails the extractor closed. Index off-by-ones: a "
+              "misplacement of the convolution (n_shift += n_Q_negative +- 1, decimation offset, shifted z or t_RAC "
+              "grid, wrong LQ_tot) is caught on the implementation alone by the independent-quadrature oracle "
+              "'position'; n_shift + 1 *before* t_RAC_vals is computed and n_extra + 1 move / extend the +-10 ns "
+              "RAC window and the placement consistently, change the field by <= 4e-5 of the peak and violate no "
+              "relation of the property - they are reported only as model/code disagreement (correspondence, "
+              "fingerprint)")
 ASSUMPTIONS = ["viewing index n > 1, dt > 0, at least two samples",
                "scipy.constants.c and float64 eps are hard-coded in the twin (checked by the correspondence run)"]
 
@@ -423,6 +434,24 @@ def corr_arz_bookkeeping(run):
         stage1.append("arzidx %d %s" % (len(times) + 1, fw.fl([dt, t_start, ml, z_to_t])))
         ctx.append((c, which, energy, rec, out, theta, n, z_to_t, dt, t_start))
     rep1 = fw.run_driver("C07", stage1)
+    # hypotheses of C07_whole_sample_move_arz_partial (ArzMoveHyp, m = 1) evaluated on the Float twin, and its
+    # index conclusion (n_shift' = n_shift - dt_divider, everything else unchanged) checked there as well
+    moved = fw.run_driver("C07", ["arzidx %d %s" % (len(grid(cx[0])) + 1, fw.fl([cx[8], cx[9] - cx[8], float(Z.max_length(cx[2])), cx[7]]))
+                                  for cx in ctx])
+    for rp, rpm, cx in zip(rep1, moved, ctx):
+        a, b = rp.split(), rpm.split()
+        if len(a) != 8 or len(b) != 8:
+            continue
+        d0, nS0, nR0, sk0, sk1 = int(a[0]), int(a[3]), int(a[5]), int(a[6]), int(b[6])
+        x = (cx[9] + 1e-8) / fw.b2f(a[7]) / cx[7]
+        if sk0 == 0 and sk1 == 0 and nR0 >= 1 and (x - d0 >= 1e-6 or x <= -1e-6):
+            run.count("arz_move_hyp_holds")
+            if not (int(b[3]) == nS0 - d0 and a[:3] + a[4:6] == b[:3] + b[4:6]):
+                ok = False
+                run.note_broken("correspondence: Float twin contradicts arzIdx_move: case=%s idx(t0)=%s idx(t0+dt)=%s"
+                                % (cx[0], a, b))
+        else:
+            run.count("arz_move_hyp_not_applicable")
     stage2, ctx2 = [], []
     for rq, rp, cx in zip(stage1, rep1, ctx):
         c, which, energy, rec, out, theta, n, z_to_t, dt, t_start = cx
@@ -566,6 +595,8 @@ def _rel_check(kind, c, relation):
     sc = float(np.max(np.abs(base))) if len(base) else 0.0
     if relation in ("inv_distance", "even", "joint_shift", "move"):
         sc = max(sc, ref_peak(kind, c))
+    if relation == "position":
+        return position_check(kind, c)
     if relation == "finite":
         if len(base) != N or not np.all(np.isfinite(base)):
             return {"observed": {"len": len(base), "nonfinite": int(np.sum(~np.isfinite(base)))},
@@ -685,7 +716,70 @@ def move_in_range(kind, c):
     return True
 
 
-RELATIONS = ("finite", "inv_distance", "even", "joint_shift", "move", "zero_energy", "linear_E", "cone_max")
+def arz_independent(c, refine=7.3):
+    """independent re-computation of the ARZ field off the cone: for each shower
+    E(t_k) = -(sin(theta)/sin(theta_c)) / (R dt) * (<RAC>(t_{k+1}) - <RAC>(t_k)),
+    <RAC>(t) = int Q(z) RAC(t - t0 - z*z_to_t) dz / int Q(z) dz  (RAC cut at +-10 ns as in the code),
+    by a midpoint rule on a z-grid that is not commensurate with the code's; uses only the implementation's
+    profile / potential / max_length functions, none of shower_signal's index bookkeeping.
+    Returns (field, d field / d t0 shift, smallest sub-sample step dt/dt_divider)."""
+    import scipy.constants
+    from pyrex.askaryan import ARZAskaryanSignal as Z
+    times = grid(c)
+    dt = c["dt"]
+    theta = abs(psi_of(c))
+    n = n_of(c)
+    z_to_t = (1 - n * np.cos(theta)) / scipy.constants.c
+    tt0 = np.concatenate((times, [times[-1] + dt])) - t0_of(c)
+    total, deriv, delta = 0.0, 0.0, None
+    for en, prof, rac in ((c["E"] * c["em"], Z.em_shower_profile, Z.em_shower_RAC),
+                          (c["E"] * c["had"], Z.had_shower_profile, Z.had_shower_RAC)):
+        if en == 0:
+            continue
+        ml = float(Z.max_length(en))
+        d = max(int(abs(100 * dt / ml / z_to_t)) + 1, int(abs(dt / 1e-11)) + 1)
+        dl = dt / d
+        h = abs(dl / z_to_t) / refine
+        z = (np.arange(int(5 * ml / h) + 1) + 0.5) * h
+        Q = prof(z, en)
+        pref = -(np.sin(theta) / np.sqrt(1 - 1 / n ** 2)) / (c["R"] * dt) / np.sum(Q)
+        fields = []
+        for tt in (tt0, tt0 - dl):          # the second one: shower time later by one sub-sample
+            avg = np.empty(len(tt))
+            for k, t in enumerate(tt):
+                u = t - z * z_to_t
+                r_ = rac(u, en)
+                r_[np.abs(u) > 1e-8] = 0
+                avg[k] = np.sum(Q * r_)
+            fields.append(pref * np.diff(avg))
+        total = total + fields[0]
+        deriv = deriv + (fields[1] - fields[0]) / dl
+        delta = dl if delta is None else min(delta, dl)
+    return total, deriv, delta
+
+
+def position_check(kind, c):
+    """ARZ off the cone: the sampled pulse must agree with the independent quadrature to 5e-3 of the peak (the
+    clean tree stays below 2e-3 on thousands of cases).  A misplacement by one sub-sample dt/dt_divider changes
+    the samples by (dt/dt_divider)*|dE/dt|, which is 1e-2..1e-1 of the peak within ~3 degrees of the cone.  The
+    least-squares time offset is reported for diagnosis only (it is ill-conditioned on coarse grids)."""
+    v = values(kind, c)
+    e, g, delta = arz_independent(c)
+    pk = float(np.max(np.abs(e)))
+    if pk == 0 or not np.all(np.isfinite(v)) or len(v) != len(e):
+        return None
+    err = float(np.max(np.abs(v - e))) / pk
+    if err > 5e-3:
+        shift = float(np.sum((v - e) * g) / np.sum(g * g)) / delta
+        return {"observed": {"max deviation / peak": err, "fitted time offset / (dt/dt_divider)": shift,
+                             "sub-sample step": delta},
+                "expected": "field = -(sin th/sin th_c)/(R dt) * diff(<RAC>_Q(t - t0)) within 5e-3 of the peak",
+                "what": "arz: the off-cone pulse is not where / what the independent convolution integral says "
+                        "(deviation %.1e of the peak, fitted offset %.2f sub-samples)" % (err, shift)}
+    return None
+
+
+RELATIONS = ("finite", "inv_distance", "even", "joint_shift", "move", "zero_energy", "linear_E", "cone_max", "position")
 
 
 def report(run, kind, c, relation, res):
@@ -754,6 +848,20 @@ def search(run, deep):
             res = rel_check(run, kind, c, "cone_max")
             if res is not None:
                 report(run, kind, c, "cone_max", res)
+    # ARZ off the cone: position and shape against an independent quadrature of the convolution integral
+    for i in range(run.scale(40, 300) if not deep else 300):
+        c = gen_case(run, "zhs", small=True, inside=True)      # (no int()-boundary filtering needed here)
+        c["psi"] = None
+        c["dpsi"] = r.choice([-1, 1]) * 10 ** r.uniform(-3.3, r.choice([-1.6, -1.3, -0.9]))
+        c["N"] = r.choice([48, 64, 65])
+        c["k"] = r.randint(16, c["N"] - 16)
+        if min(c["E"] * c["em"] or 1e9, c["E"] * c["had"] or 1e9) < 3.0:
+            continue
+        run.case(("position",) + desc("arz", c))
+        run.count("search_arz_position")
+        res = rel_check(run, "arz", c, "position")
+        if res is not None:
+            report(run, "arz", c, "position", res)
     # tiny hadronic fractions (ARZ): finiteness
     for i in range(run.scale(6, 60)):
         c = gen_case(run, "arz", small=True, inside=True)
